@@ -141,10 +141,10 @@ def marks (p : List Nat) (ies : List (Nat × Effect)) : List Expr :=
 def selected (p : List Nat) (ies : List (Nat × Effect)) : List Effect :=
   (ies.filter (fun ie => p.contains ie.1)).map (fun ie => uncond ie.2)
 
-/-- whatever happens to the effects, the preconditions of a surviving variant are the marks -/
-theorem variantLoop_pre (mode : ConflictMode) (p : List Nat) : ∀ (ies : List (Nat × Effect)) (pre : List Expr)
+/-- the preconditions of a surviving variant are the marks -/
+theorem variantLoop_pre (p : List Nat) : ∀ (ies : List (Nat × Effect)) (pre : List Expr)
     (acc : StaticAcc) (effs : List Effect) (pre' : List Expr) (effs' : List Effect),
-    variantLoop mode p ies pre acc effs = some (pre', effs') → pre' = (marks p ies).foldl addPre pre
+    variantLoop p ies pre acc effs = some (pre', effs') → pre' = (marks p ies).foldl addPre pre
   | [], pre, _, effs, pre', effs', h => by
     simp only [variantLoop, Option.some.injEq, Prod.mk.injEq] at h
     simp [marks, h.1]
@@ -156,46 +156,50 @@ theorem variantLoop_pre (mode : ConflictMode) (p : List Nat) : ∀ (ies : List (
       cases hs : staticStep acc (uncond e) with
       | some acc' =>
         rw [hs] at h
-        exact variantLoop_pre mode p rest _ _ _ _ _ h
-      | none =>
-        rw [hs] at h
-        cases mode with
-        | asFound => exact variantLoop_pre _ p rest _ _ _ _ _ h
-        | repaired => cases h
+        exact variantLoop_pre p rest _ _ _ _ _ h
+      | none => rw [hs] at h; cases h
     · simp only [hi, Bool.false_eq_true, if_false] at h ⊢
-      exact variantLoop_pre mode p rest _ _ _ _ _ h
+      exact variantLoop_pre p rest _ _ _ _ _ h
 
-/-- when every selected effect is accepted by the static conflict check, both readings of the
-    `except` clause agree and the variant carries exactly the selected effects -/
-theorem variantLoop_ok (mode : ConflictMode) (p : List Nat) : ∀ (ies : List (Nat × Effect)) (pre : List Expr)
+/-- THE LOOP IN CLOSED FORM: the variant survives iff re-adding the unconditional copies of the selected
+    effects raises no `UPConflictingEffectsException`, and then it carries the marks and exactly the
+    selected effects -/
+theorem variantLoop_eq (p : List Nat) : ∀ (ies : List (Nat × Effect)) (pre : List Expr)
     (acc : StaticAcc) (effs : List Effect),
-    (staticAdd (selected p ies) acc).isSome = true →
-    variantLoop mode p ies pre acc effs = some ((marks p ies).foldl addPre pre, effs ++ selected p ies)
-  | [], pre, _, effs, _ => by simp [variantLoop, marks, selected]
-  | (i, e) :: rest, pre, acc, effs, h => by
+    variantLoop p ies pre acc effs =
+      if (staticAdd (selected p ies) acc).isSome then some ((marks p ies).foldl addPre pre, effs ++ selected p ies)
+      else none
+  | [], pre, _, effs => by simp [variantLoop, marks, selected, staticAdd]
+  | (i, e) :: rest, pre, acc, effs => by
     unfold variantLoop
     simp only [marks, List.map_cons, List.foldl_cons]
     by_cases hi : p.contains i = true
     · have hi2 : i ∈ p := by simpa using hi
       have hsel : selected p ((i, e) :: rest) = uncond e :: selected p rest := by
         simp [selected, hi2]
-      rw [hsel] at h ⊢
+      rw [hsel]
       simp only [hi, if_true]
-      unfold staticAdd at h
+      unfold staticAdd
       cases hs : staticStep acc (uncond e) with
-      | none => rw [hs] at h; cases h
+      | none => simp
       | some acc' =>
-        rw [hs] at h
         simp only
-        rw [variantLoop_ok mode p rest _ acc' _ h]
+        rw [variantLoop_eq p rest _ acc' _]
         simp [marks, List.append_assoc]
     · have hi2 : i ∉ p := by simpa using hi
       have hsel : selected p ((i, e) :: rest) = selected p rest := by
         simp [selected, hi2]
-      rw [hsel] at h ⊢
+      rw [hsel]
       simp only [hi, Bool.false_eq_true, if_false]
-      rw [variantLoop_ok mode p rest _ acc _ h]
+      rw [variantLoop_eq p rest _ acc _]
       simp [marks]
+
+/-- when every selected effect is accepted by the static conflict check the variant carries exactly the
+    selected effects -/
+theorem variantLoop_ok (p : List Nat) (ies : List (Nat × Effect)) (pre : List Expr)
+    (acc : StaticAcc) (effs : List Effect) (h : (staticAdd (selected p ies) acc).isSome = true) :
+    variantLoop p ies pre acc effs = some ((marks p ies).foldl addPre pre, effs ++ selected p ies) := by
+  rw [variantLoop_eq, if_pos h]
 
 /-! ### which subset a state selects -/
 
@@ -450,9 +454,9 @@ theorem pre_of_successor {V : View} {g : GState} {pre : List Expr} {E : List Eff
   | true => rfl
   | false => rw [successor_none_of_pre E hp] at h; cases h
 
-/-- the decidable hypothesis that excludes the cause of D-C06a: re-adding the unconditional effects
-    followed by the unconditional copies of the effects selected by `p` raises no
-    `UPConflictingEffectsException` -/
+/-- re-adding the unconditional effects followed by the unconditional copies of the effects selected by `p`
+    raises no `UPConflictingEffectsException`: the variant of `p` is not dropped for a static conflict
+    (before d88a7f6: the hypothesis that excluded the former finding D-C37-conflicting-variant) -/
 def NoStaticConflict (a : Action) (p : List Nat) : Prop :=
   (staticAdd (uncondEffects a ++ selected p (enumFrom 0 (condEffects a))) ⟨[], []⟩).isSome = true
 
